@@ -393,9 +393,23 @@ def indep_case(draw, tier):
     if k == 0:
         n = draw(st.sampled_from([1999, 2000, 2001, 2008, 2400, 3600, 3601, 5000, 8193]))
         bits = draw(bits_of_len(n))
+    elif k == 1:
+        # lengths at which the fixed-length interpretations exist (floats, bfloat, the 8/6/4-bit formats, whole bytes)
+        bits = draw(bits_of_len(draw(st.sampled_from([1, 4, 6, 8, 8, 16, 16, 16, 24, 32, 32, 64, 64, 12, 48]))))
     else:
         bits = draw(bits_st(max_len=300))
     return {'bits': bits, 'other': draw(bits_st(max_len=40)), 'cls': draw(cls_st), 'k': draw(st.integers(0, 70)), 'golomb': draw(st.sampled_from(c10.KINDS))}
+
+
+WHOLE_VALUE = {'uintbe': lambda n: n % 8 == 0, 'uintle': lambda n: n % 8 == 0, 'uintne': lambda n: n % 8 == 0, 'intbe': lambda n: n % 8 == 0, 'intle': lambda n: n % 8 == 0,
+               'intne': lambda n: n % 8 == 0, 'oct': lambda n: n % 3 == 0, 'floatbe': lambda n: n in (16, 32, 64), 'floatle': lambda n: n in (16, 32, 64),
+               'floatne': lambda n: n in (16, 32, 64), 'bfloat': lambda n: n == 16, 'bfloatbe': lambda n: n == 16, 'bfloatle': lambda n: n == 16, 'bfloatne': lambda n: n == 16,
+               'bool': lambda n: n == 1, 'p3binary': lambda n: n == 8, 'p4binary': lambda n: n == 8, 'e4m3mxfp': lambda n: n == 8, 'e5m2mxfp': lambda n: n == 8,
+               'e8m0mxfp': lambda n: n == 8, 'mxint': lambda n: n == 8, 'e3m2mxfp': lambda n: n == 6, 'e2m3mxfp': lambda n: n == 6, 'e2m1mxfp': lambda n: n == 4}
+
+
+def _fl(v):
+    return 'nan' if isinstance(v, float) and math.isnan(v) else v
 
 
 def observables(bs, cls, bits, other, k):
@@ -418,6 +432,17 @@ def observables(bs, cls, bits, other, k):
     if n in (16, 32, 64):
         f = x.float
         out['float'] = 'nan' if math.isnan(f) else f
+    for name, ok in WHOLE_VALUE.items():
+        if n and ok(n):
+            v = attempt(getattr, x, name)
+            out['get_' + name] = _fl(v) if not is_raised(v) else 'raised ' + v.type.__name__
+            if not is_raised(v) and not (isinstance(v, float) and math.isnan(v)):
+                # and building from the value: stored bit order does not depend on the mode
+                kw = {name: v} if name.startswith(('bfloat', 'bool', 'p3', 'p4', 'e', 'mxint')) or name == 'oct' else {name: v, 'length': n}
+                w = attempt(lambda: cls_of(cls)(**kw).bin)
+                out['build_' + name] = w if not is_raised(w) else 'raised ' + w.type.__name__
+                w = attempt(lambda: bs.pack(name if 'length' not in kw else f'{name}:{n}', v).bin)
+                out['pack_' + name] = w if not is_raised(w) else 'raised ' + w.type.__name__
     if n:
         out['from_uint'] = cls_of(cls)(uint=x.uint, length=n).bin
         out['from_hex'] = cls_of(cls)(hex=x.hex).bin if n % 4 == 0 else None
